@@ -349,6 +349,8 @@ struct FileCtx<'a> {
     locals_out: BTreeMap<String, Vec<String>>,
     /// units whose function is not `pub` (private helpers): only these may be demoted
     private_units: Vec<String>,
+    /// N1: functions of the code whose name collides with a spec function of the overlay: renamed
+    code_renames: HashMap<String, String>,
     /// nested `fn`s inside a unit body that the contracts do not list: "outer/inner" -> world mode
     auto_nested: HashMap<String, String>,
     /// I1 for such a nested fn called in TAIL position of its outer function with the same return
@@ -777,6 +779,12 @@ impl<'a, 'b, 'ast> Visit<'ast> for BodyV<'a, 'b> {
 
     fn visit_path(&mut self, p: &'ast Path) {
         self.rewrite_root_path(p, false);
+        if p.leading_colon.is_none() && p.segments.len() == 1 {
+            if let Some(nn) = self.fc.code_renames.get(&p.segments[0].ident.to_string()).cloned() {
+                let r = br(p.segments[0].ident.span());
+                self.fc.edit(r.0, r.1, nn, "N1.rename");
+            }
+        }
         // generic AsRef params used as types: handled in visit_type_path
         visit::visit_path(self, p);
     }
@@ -1774,6 +1782,12 @@ fn process_fn(
     if let Some(n) = &u.rename {
         let r = br(sig.ident.span());
         fc.edit(r.0, r.1, n.clone(), "R14.nested.rename");
+    } else if u.id.starts_with("auto:") && !outer_name.contains('/') {
+        // N1: the definition of a renamed top-level helper
+        if let Some(nn) = fc.code_renames.get(&sig.ident.to_string()).cloned() {
+            let r = br(sig.ident.span());
+            fc.edit(r.0, r.1, nn, "N1.rename");
+        }
     }
     // R12: AsRef generics
     let mut asref: HashMap<String, String> = HashMap::new();
@@ -2730,6 +2744,14 @@ fn main() {
                 }
             }
         }
+        // N1: an auto-included function whose name an overlay spec function already has
+        let extra_defined2: HashSet<String> = fcfg.get("extra_fn_names").and_then(|x| x.as_array()).map(|a| a.iter().map(|x| x.as_str().unwrap_or("").to_string()).collect()).unwrap_or_default();
+        let mut code_renames: HashMap<String, String> = HashMap::new();
+        for n in &auto_names {
+            if extra_defined2.contains(n) {
+                code_renames.insert(n.clone(), format!("{n}_code"));
+            }
+        }
         let mut keep_items = keep_items;
         for n in &auto_items {
             keep_items.insert(n.clone());
@@ -2765,7 +2787,7 @@ fn main() {
                 }
             }
         }
-        let mut fc = FileCtx { cfg: &cfg, src: &src, edits: vec![], rule_counts: BTreeMap::new(), errors: vec![], warnings: vec![], degraded: vec![], extra_eff: extra_eff.clone(), fname: fname.clone(), ro_violations: vec![], field_types: field_types.clone(), locals_out: BTreeMap::new(), private_units: vec![], auto_nested: HashMap::new(), tail_calls: HashMap::new(), inline_map: HashMap::new(), no_inline: false, no_probe: false };
+        let mut fc = FileCtx { cfg: &cfg, src: &src, edits: vec![], rule_counts: BTreeMap::new(), errors: vec![], warnings: vec![], degraded: vec![], extra_eff: extra_eff.clone(), fname: fname.clone(), ro_violations: vec![], field_types: field_types.clone(), locals_out: BTreeMap::new(), private_units: vec![], code_renames: code_renames.clone(), auto_nested: HashMap::new(), tail_calls: HashMap::new(), inline_map: HashMap::new(), no_inline: false, no_probe: false };
         // segments to keep: (start, end, kind, name)
         let mut segs: Vec<(usize, usize, String, String)> = vec![];
         let mut found_units: HashSet<String> = HashSet::new();
@@ -2802,7 +2824,7 @@ fn main() {
                 if !simple_params || !f.sig.generics.params.is_empty() || f.sig.asyncness.is_some() || block_leaves(&f.block) || ids.contains(&name) {
                     continue;
                 }
-                let mut scratch = FileCtx { cfg: &cfg, src: &src, edits: vec![], rule_counts: BTreeMap::new(), errors: vec![], warnings: vec![], degraded: vec![], extra_eff: extra_eff.clone(), fname: fname.clone(), ro_violations: vec![], field_types: field_types.clone(), locals_out: BTreeMap::new(), private_units: vec![], auto_nested: HashMap::new(), tail_calls: HashMap::new(), inline_map: HashMap::new(), no_inline: true, no_probe: false };
+                let mut scratch = FileCtx { cfg: &cfg, src: &src, edits: vec![], rule_counts: BTreeMap::new(), errors: vec![], warnings: vec![], degraded: vec![], extra_eff: extra_eff.clone(), fname: fname.clone(), ro_violations: vec![], field_types: field_types.clone(), locals_out: BTreeMap::new(), private_units: vec![], code_renames: code_renames.clone(), auto_nested: HashMap::new(), tail_calls: HashMap::new(), inline_map: HashMap::new(), no_inline: true, no_probe: false };
                 process_fn(&mut scratch, &f.attrs, &f.vis, &f.sig, Some(&f.block), &u, &nested, &name, false);
                 let mut errs = vec![];
                 let (body, _) = apply_edits(&src, range_of(&*f.block), &scratch.edits, &mut errs);
@@ -2855,7 +2877,7 @@ fn main() {
                             || ids.contains(&format!("Self::{name}")) || !cfg.env.attrs_on(&m.attrs).unwrap_or(false) || fc.inline_map.contains_key(&format!("::{name}")) {
                             continue;
                         }
-                        let mut scratch = FileCtx { cfg: &cfg, src: &src, edits: vec![], rule_counts: BTreeMap::new(), errors: vec![], warnings: vec![], degraded: vec![], extra_eff: extra_eff.clone(), fname: fname.clone(), ro_violations: vec![], field_types: field_types.clone(), locals_out: BTreeMap::new(), private_units: vec![], auto_nested: HashMap::new(), tail_calls: HashMap::new(), inline_map: HashMap::new(), no_inline: true, no_probe: false };
+                        let mut scratch = FileCtx { cfg: &cfg, src: &src, edits: vec![], rule_counts: BTreeMap::new(), errors: vec![], warnings: vec![], degraded: vec![], extra_eff: extra_eff.clone(), fname: fname.clone(), ro_violations: vec![], field_types: field_types.clone(), locals_out: BTreeMap::new(), private_units: vec![], code_renames: code_renames.clone(), auto_nested: HashMap::new(), tail_calls: HashMap::new(), inline_map: HashMap::new(), no_inline: true, no_probe: false };
                         process_fn(&mut scratch, &m.attrs, &m.vis, &m.sig, Some(&m.block), &u, &nested, &name, false);
                         let mut errs = vec![];
                         let (body, _) = apply_edits(&src, range_of(&m.block), &scratch.edits, &mut errs);
@@ -3269,7 +3291,7 @@ fn main() {
         out_files.insert(
             fname.clone(),
             json!({ "segments": rendered, "dropped": dropped, "warnings": fc.warnings, "degraded": fc.degraded,
-                    "auto_units": auto_names, "auto_items": auto_items, "ro_violations": fc.ro_violations, "missing_units": missing_units, "lifted": lift_log, "lift_missing": lift_missing, "locals": fc.locals_out, "inlined_helpers": inlined_helpers, "private_units": fc.private_units }),
+                    "auto_units": auto_names, "auto_items": auto_items, "ro_violations": fc.ro_violations, "missing_units": missing_units, "lifted": lift_log, "lift_missing": lift_missing, "locals": fc.locals_out, "inlined_helpers": inlined_helpers, "private_units": fc.private_units, "auto_effects": extra_eff }),
         );
     }
     let out = json!({ "files": out_files, "errors": all_errors, "rule_counts": total_rules });
